@@ -238,6 +238,12 @@ int main(int argc, char** argv)
     } else if (!strcmp(mode, "c17")) {
         /* every targetDstSize 1..bound+1 for small inputs, all three destSize entry points, all HC parsers */
         int ncases = thorough ? 2500 : 160;
+        {   /* the smallest inputs (0..14 bytes: below and at LZ4_minLength / MFLIMIT) x every HC level and a few accelerations x every target */
+            size_t n; int lv, t;
+            for (n = 0; n <= 14; n++) { int kind = (int)rndn(D_KINDS); int bound; gen_data(data, n, kind); bound = LZ4_compressBound((int)n);
+                for (lv = 0; lv <= 12; lv++) for (t = 1; t <= bound + 1; t += (t > 6 && t < bound - 2) ? 3 : 1) do_case(data, n, E_HC_DESTSIZE, lv, t, kind, 1);
+                for (t = 1; t <= bound + 1; t++) { do_case(data, n, E_DESTSIZE, 1, t, kind, 1); do_case(data, n, E_DESTSIZE_EXT, pick_param(E_DESTSIZE_EXT), t, kind, 1); } }
+        }
         for (i = 0; i < ncases; i++) {
             int kind = (int)rndn(D_KINDS); size_t n = rndp(75) ? rndn(thorough ? 700 : 320) : gen_size(3000);
             int bound, t, entry, param;
